@@ -1,8 +1,10 @@
 (* C14 -- Results are ordered best-first and capped; the bounded queue keeps the top k.
    This file only states the property theorems; every proof is `exact <lemma>`. *)
 From Coq Require Import List ZArith Orders Sorting.Permutation.
-From MM Require Import model.Heap gen.Gen_HeapDict proofs.HeapProofs proofs.HeapBridge.
+From MM Require Import lib.ListSet lib.Values model.Heap model.Elig model.SearchParams model.Search gen.Gen_HeapDict
+  proofs.HeapProofs proofs.HeapBridge proofs.ExhaustiveProofs proofs.GreedyProofs.
 Import ListNotations.
+Local Open Scope nat_scope.
 
 Module C14 (K : UsualOrderedTypeFull').
   Module P := HeapProofs K.
@@ -47,6 +49,28 @@ Module C14 (K : UsualOrderedTypeFull').
       run key h ops1 ++ hd_get_result key (final key h ops1) :: run key (final key h ops1) ops2.
   Proof. exact @run_read. Qed.
 
+
+  (* both searches return at most n_designs designs, in non-increasing score order *)
+  Module E := ExhTopK K.
+  Module G := GreedyTopK K.
+  Theorem C14_exhaustive_sorted :
+    forall (V : Type) (O : vops V) (es : list elig) (par : spar V)
+           (shareS optB : set -> V) (bud : set -> set -> V) (skey : set -> set -> K.t),
+      E.HP.desc (map (ekey skey) (exhaustive O E.HP.kltb (assignments_of es) par shareS optB bud skey)).
+  Proof. exact @E.exhaustive_sorted. Qed.
+  Theorem C14_exhaustive_capped :
+    forall (V : Type) (O : vops V) (es : list elig) (par : spar V)
+           (shareS optB : set -> V) (bud : set -> set -> V) (skey : set -> set -> K.t),
+      length (exhaustive O E.HP.kltb (assignments_of es) par shareS optB bud skey)
+      = Nat.min (p_n_designs par) (length (pushed O es par shareS optB bud)).
+  Proof. exact @E.exhaustive_length. Qed.
+  Theorem C14_greedy_sorted_capped :
+    forall (V : Type) (O : vops V) (A : assignments) (par : spar V)
+           (shareS : set -> V) (bud : set -> set -> V) (gkey : set -> set -> K.t) (zero_key : K.t)
+           (fuel : nat) (ds : list design),
+      greedy O G.HP.kltb A par shareS bud gkey zero_key fuel = Some ds ->
+      G.HP.desc (map (fun d => gkey (fst d) (snd d)) ds) /\ (length ds <= p_n_designs par)%nat.
+  Proof. exact @G.greedy_sorted_capped. Qed.
 End C14.
 
 (* tie: the code regenerated from heapdict.py on this run is the model, on every history,
@@ -65,6 +89,9 @@ Print Assumptions C14Z.C14_retained_are_pushed.
 Print Assumptions C14Z.C14_read_pure.
 Print Assumptions C14Z.C14_reads_transparent.
 Print Assumptions C14Z.C14_read_reports_prefix.
+Print Assumptions C14Z.C14_exhaustive_sorted.
+Print Assumptions C14Z.C14_exhaustive_capped.
+Print Assumptions C14Z.C14_greedy_sorted_capped.
 
 (* non-vacuity: a concrete history with ties, two keys, capacity 2 *)
 Example C14_example :
